@@ -281,12 +281,19 @@ def check_tetrahedral(run, pkg):
     if NB is None:
         return
     # neighbours: [j for j in cand if j != i], cand = argpartition(d, 5)[:5]
-    oknb = False
+    oknb = None                 # a form the rule does not know is undecided, never a violation
     cand = None
     if NB[0] == "comp" and len(NB[3]) == 1:
         cv, src, conds = NB[3][0]
         oknb = tri_lazy(lambda: (True if (NB[2] == cv) else None), lambda: (True if (len(conds) == 1) else None), lambda: eqv(conds[0], ("cmp", "!=", cv, i), ("cmp", "!=", i, cv)))
         cand = src
+    elif NB[0] == "sub" and NB[2][0] == "cmp" and NB[2][1] == "!=" and NB[1] in (NB[2][2], NB[2][3]):
+        # boolean-mask spelling: cand[cand != i]
+        other = NB[2][3] if NB[2][2] == NB[1] else NB[2][2]
+        oknb = eqv(other, i)
+        cand = NB[1]
+    elif NB[0] == "call" and NB[1] in ("numpy.delete",) and len(NB[2]) == 2:
+        cand = None
     run.ob("R-SELECTK", fq, "drop-self", oknb, "the particle itself is removed from the candidates by its index", show(NB)[-60:], witness=None if oknb else "the particle itself may remain among the four (distance 0: cos undefined)", loc=loc, sound=True)
     if cand is not None:
         ops = []
